@@ -3,7 +3,6 @@ package gateway
 import (
 	"errors"
 	"fmt"
-	"sync"
 
 	"github.com/vektah/gqlparser/v2"
 	"github.com/vektah/gqlparser/v2/ast"
@@ -141,17 +140,6 @@ func (p *MinQueriesPlanner) generatePlans(ctx *PlanningContext, query *ast.Query
 		// add the plan to the top level list
 		plans = append(plans, plan)
 
-		// a channel to register new steps
-		const maxConcurrentSteps = 50
-		stepCh := make(chan *newQueryPlanStepPayload, maxConcurrentSteps)
-
-		// a chan to get errors
-		errCh := make(chan error)
-		defer close(errCh)
-
-		// a wait group to track the progress of goroutines
-		stepWg := &sync.WaitGroup{}
-
 		// get the type for the operation
 		var operationType string
 		switch operation.Operation {
@@ -165,11 +153,11 @@ func (p *MinQueriesPlanner) generatePlans(ctx *PlanningContext, query *ast.Query
 			operationType = typeNameQuery
 		}
 
-		// we are garunteed at least one query
-		stepWg.Add(1)
-
-		// start with an empty root step
-		stepCh <- &newQueryPlanStepPayload{
+		// the steps still to be built, starting with an empty root step. Building a step can add
+		// more of them (the parts of its selection that live somewhere else); they are taken from
+		// the front of this list in the order they were added, by the same loop that adds them,
+		// so the list can grow as long as the query demands.
+		steps := []*newQueryPlanStepPayload{{
 			Plan:           plan,
 			SelectionSet:   operation.SelectionSet,
 			ParentType:     operationType,
@@ -177,126 +165,89 @@ func (p *MinQueriesPlanner) generatePlans(ctx *PlanningContext, query *ast.Query
 			InsertionPoint: []string{},
 			Fragments:      ast.FragmentDefinitionList{},
 			Wrapper:        ast.SelectionSet{},
-		}
+		}}
 
-		// start waiting for steps to be added
-		// NOTE: i dont think this closure is necessary ¯\_(ツ)_/¯
-		go func(newSteps chan *newQueryPlanStepPayload) {
-		SelectLoop:
-			// continuously drain the step channel
-			for payload := range newSteps {
-				step := &QueryPlanStep{
-					Queryer:             p.GetQueryer(ctx, payload.Location),
-					ParentType:          payload.ParentType,
-					SelectionSet:        ast.SelectionSet{},
-					InsertionPoint:      payload.InsertionPoint,
-					Variables:           Set{},
-					FragmentDefinitions: payload.Fragments,
-				}
+		for len(steps) > 0 {
+			payload := steps[0]
+			steps = steps[1:]
 
-				// if there is a parent to this query
-				if payload.Parent != nil {
-					ctx.Gateway.logger.Debug("Adding step as dependency")
-					// add the new step to the Then of the parent
-					payload.Parent.Then = append(payload.Parent.Then, step)
-				}
-				// if we don't yet have a root step
-				if plan.RootStep == nil {
-					// use this one
-					plan.RootStep = step
-				}
-
-				ctx.Gateway.logger.Debug(fmt.Sprintf(
-					"Encountered new step: \n"+
-						"\tParentType: %v \n"+
-						"\tInsertion Point: %v \n"+
-						"\tSelectionSet: \n%s",
-					step.ParentType,
-					payload.InsertionPoint,
-					graphql.FormatSelectionSet(payload.SelectionSet),
-				))
-
-				// we are going to start walking down the operations selection set and let
-				// the steps of the walk add any necessary selectedFields
-				newSelection, err := p.extractSelection(ctx, &extractSelectionConfig{
-					stepCh:         stepCh,
-					stepWg:         stepWg,
-					locations:      ctx.Locations,
-					parentLocation: payload.Location,
-					parentType:     step.ParentType,
-					selection:      payload.SelectionSet,
-					step:           step,
-					insertionPoint: payload.InsertionPoint,
-					plan:           payload.Plan,
-					wrapper:        payload.Wrapper,
-				})
-				if err != nil {
-					errCh <- err
-					continue SelectLoop
-				}
-
-				// if some of the fields are from the same location as the field on the operation
-				if newSelection != nil {
-					// we have a selection set from one of the root operation fields in the same location
-					// so add it to the query we are sending to the service
-					step.SelectionSet = newSelection
-				}
-
-				// now that we're done processing the step we need to preconstruct the query that we
-				// will be firing for this plan
-
-				// we need to grab the list of variable definitions
-				variableDefs := ast.VariableDefinitionList{}
-				// we need to grab the variable definitions and values for each variable in the step
-				for variable := range step.Variables {
-					// add the definition
-					variableDefs = append(variableDefs, plan.Operation.VariableDefinitions.ForName(variable))
-				}
-
-				// build up the query document
-				step.QueryDocument = plannerBuildQuery(ctx, plan.Operation.Name, step.ParentType, variableDefs, step.SelectionSet, step.FragmentDefinitions)
-
-				// we also need to turn the query into a string
-				queryString, err := graphql.PrintQuery(step.QueryDocument)
-				if err != nil {
-					errCh <- err
-					continue SelectLoop
-				}
-
-				step.QueryString = queryString
-
-				// we're done processing this step
-				stepWg.Done()
+			step := &QueryPlanStep{
+				Queryer:             p.GetQueryer(ctx, payload.Location),
+				ParentType:          payload.ParentType,
+				SelectionSet:        ast.SelectionSet{},
+				InsertionPoint:      payload.InsertionPoint,
+				Variables:           Set{},
+				FragmentDefinitions: payload.Fragments,
 			}
-		}(stepCh)
 
-		// there are 2 possible options:
-		// - either the wait group finishes
-		// - we get a messsage over the error chan
+			// if there is a parent to this query
+			if payload.Parent != nil {
+				ctx.Gateway.logger.Debug("Adding step as dependency")
+				// add the new step to the Then of the parent
+				payload.Parent.Then = append(payload.Parent.Then, step)
+			}
+			// if we don't yet have a root step
+			if plan.RootStep == nil {
+				// use this one
+				plan.RootStep = step
+			}
 
-		// in order to wait for either, let's spawn a go routine
-		// that waits until all of the steps are built and notifies us when its done
-		doneCh := make(chan bool)
-		defer close(doneCh)
+			ctx.Gateway.logger.Debug(fmt.Sprintf(
+				"Encountered new step: \n"+
+					"\tParentType: %v \n"+
+					"\tInsertion Point: %v \n"+
+					"\tSelectionSet: \n%s",
+				step.ParentType,
+				payload.InsertionPoint,
+				graphql.FormatSelectionSet(payload.SelectionSet),
+			))
 
-		go func() {
-			// when the wait group is finished
-			stepWg.Wait()
-			// push a value over the channel
-			doneCh <- true
-		}()
+			// we are going to start walking down the operations selection set and let
+			// the steps of the walk add any necessary selectedFields
+			newSelection, err := p.extractSelection(ctx, &extractSelectionConfig{
+				steps:          &steps,
+				locations:      ctx.Locations,
+				parentLocation: payload.Location,
+				parentType:     step.ParentType,
+				selection:      payload.SelectionSet,
+				step:           step,
+				insertionPoint: payload.InsertionPoint,
+				plan:           payload.Plan,
+				wrapper:        payload.Wrapper,
+			})
+			if err != nil {
+				return nil, err
+			}
 
-		// wait for either the error channel or done channel
-		select {
-		// there was an error
-		case err := <-errCh:
-			// bubble the error up
-			return nil, err
-		// we are done
-		case <-doneCh:
-			close(stepCh)
+			// if some of the fields are from the same location as the field on the operation
+			if newSelection != nil {
+				// we have a selection set from one of the root operation fields in the same location
+				// so add it to the query we are sending to the service
+				step.SelectionSet = newSelection
+			}
+
+			// now that we're done processing the step we need to preconstruct the query that we
+			// will be firing for this plan
+
+			// we need to grab the list of variable definitions
+			variableDefs := ast.VariableDefinitionList{}
+			// we need to grab the variable definitions and values for each variable in the step
+			for variable := range step.Variables {
+				// add the definition
+				variableDefs = append(variableDefs, plan.Operation.VariableDefinitions.ForName(variable))
+			}
+
+			// build up the query document
+			step.QueryDocument = plannerBuildQuery(ctx, plan.Operation.Name, step.ParentType, variableDefs, step.SelectionSet, step.FragmentDefinitions)
+
+			// we also need to turn the query into a string
+			queryString, err := graphql.PrintQuery(step.QueryDocument)
+			if err != nil {
+				return nil, err
+			}
+
+			step.QueryString = queryString
 		}
-
 	}
 
 	// return the final plan
@@ -304,8 +255,8 @@ func (p *MinQueriesPlanner) generatePlans(ctx *PlanningContext, query *ast.Query
 }
 
 type extractSelectionConfig struct {
-	stepCh chan *newQueryPlanStepPayload
-	stepWg *sync.WaitGroup
+	// the steps that are still to be built; extractSelection appends the ones it discovers
+	steps *[]*newQueryPlanStepPayload
 
 	locations      FieldURLMap
 	parentLocation string
@@ -363,10 +314,8 @@ func (p *MinQueriesPlanner) extractSelection(ctx *PlanningContext, config *extra
 			}
 		}
 
-		// since we're adding another step we need to wait for at least one more goroutine to finish processing
-		config.stepWg.Add(1)
 		// add the new step
-		config.stepCh <- &newQueryPlanStepPayload{
+		*config.steps = append(*config.steps, &newQueryPlanStepPayload{
 			Plan:           config.plan,
 			Parent:         config.step,
 			InsertionPoint: config.insertionPoint,
@@ -376,7 +325,7 @@ func (p *MinQueriesPlanner) extractSelection(ctx *PlanningContext, config *extra
 			Location:     location,
 			SelectionSet: selectionSet,
 			Fragments:    locationFragments[location],
-		}
+		})
 	}
 
 	// if we have to have an id field on this selection set
@@ -421,8 +370,7 @@ func (p *MinQueriesPlanner) extractSelection(ctx *PlanningContext, config *extra
 				ctx.Gateway.logger.Debug("found a thing with a selection. extracting to ", insertionPoint, ". Parent insertion", config.insertionPoint)
 				// add any possible selections provided by this fields selections
 				subSelection, err := p.extractSelection(ctx, &extractSelectionConfig{
-					stepCh:         config.stepCh,
-					stepWg:         config.stepWg,
+					steps:          config.steps,
 					step:           config.step,
 					locations:      config.locations,
 					parentLocation: config.parentLocation,
@@ -483,8 +431,7 @@ func (p *MinQueriesPlanner) extractSelection(ctx *PlanningContext, config *extra
 
 			// compute the actual selection set for the fragment coming from this location
 			subSelection, err := p.extractSelection(ctx, &extractSelectionConfig{
-				stepCh:         config.stepCh,
-				stepWg:         config.stepWg,
+				steps:          config.steps,
 				step:           config.step,
 				locations:      config.locations,
 				parentLocation: config.parentLocation,
@@ -530,8 +477,7 @@ func (p *MinQueriesPlanner) extractSelection(ctx *PlanningContext, config *extra
 
 			// add any possible selections provided by selections
 			subSelection, err := p.extractSelection(ctx, &extractSelectionConfig{
-				stepCh:         config.stepCh,
-				stepWg:         config.stepWg,
+				steps:          config.steps,
 				step:           config.step,
 				locations:      config.locations,
 				parentLocation: config.parentLocation,
